@@ -8,13 +8,14 @@ import (
 
 	"ariga.io/atlas/sql/schema"
 	"ariga.io/atlas/sql/sqlite"
+	"verifharness/internal/hx"
 )
 
 // c05Renames: a rebuild whose change list RENAMES columns (the differ never emits RenameColumn, a hand-written
 // change set passed to ApplyChanges does): single renames, rotations (a -> b together with b -> c, in both
 // orders), swaps and renames next to a dropped / modified column - on a real in-memory database with rows.
 // Every kept column holds, per row, the value its source column held.
-func c05Renames(e *Env) {
+func c05Renames(e *Env, pool *hx.Pool) {
 	ctx := context.Background()
 	type ren struct{ from, to string }
 	cases := []struct {
@@ -119,6 +120,11 @@ func c05Renames(e *Env) {
 			db.Close()
 			continue
 		}
+		// the INSERT ... SELECT of the plan is the Lean copy plan (Atlas.Copy; Props.C05.renamed_column_preserved)
+		c05Model(pool, &schema.ModifyTable{T: des, Changes: changes}, plan, func(kind, sig, what, chk string) {
+			e.Res.Disagree()
+			e.Res.Violate(kind, sig, id+": "+what, chk, rep)
+		})
 		aerr := drv.ApplyChanges(ctx, []schema.Change{&schema.ModifyTable{T: des, Changes: changes}})
 		if aerr != nil {
 			// a failed apply must leave the rows where they were
